@@ -502,8 +502,11 @@ func c03Gen(r *Rand, tier string, emit func(op any)) {
 			if a.X != nil && c03Pool[a.X.I].noeq {
 				continue
 			}
-			if (c.kind == "float64" || c.kind == "float32") && c.shape == "ks" && c03IsNaNBits(c.kind, *a.N) {
-				continue // separately built slices holding NaN are never DeepEqual: see F3b
+			if (c.kind == "float64" || c.kind == "float32") && c.shape == "ks" && (c03IsNaNBits(c.kind, *a.N) || c03IsNegZero(c.kind, *a.N)) {
+				// reflect.DeepEqual compares float elements with ==: separately built slices holding NaN are never equal
+				// (F3b) and +0/-0 are equal although they are different inputs; the model compares slice elements
+				// bit-wise, so both are kept out of the Equals ops (they are exercised by the ctor ops)
+				continue
 			}
 			if a.X != nil && !a.X.Refl && c.shape == "ks" {
 				continue // same for NaN-carrying complex elements
@@ -566,6 +569,13 @@ func c03Gen(r *Rand, tier string, emit func(op any)) {
 		}
 		emit(c03Op{K: "eq", F: &f, G: &g})
 	}
+}
+
+func c03IsNegZero(kind, s string) bool {
+	if kind == "float64" {
+		return c03Bits(s) == 1<<63
+	}
+	return uint32(c03Bits(s)) == 1<<31
 }
 
 func c03IsNaNBits(kind, s string) bool {
